@@ -13,9 +13,10 @@
                          Timeout future is dropped, and the inner future with it.
        non-cancel mode : a oneshot channel is created, a task `tx.send(inner.call(req).await)`
                          is spawned (it runs when the executor gets control, i.e. after this
-                         poll), then `select! { rx, sleep(d) }` - NOT biased: when both
-                         branches are ready the winner is random.  `result.ok()` maps a closed
-                         channel (the task panicked) to None, i.e. to the Timeout error.
+                         poll), then `select! { biased; rx, sleep(d) }`: the receiver is polled
+                         first, so a result that is already there wins over the timer (also at
+                         and after the deadline).  `result.ok()` maps a closed channel (the task
+                         panicked) to None, i.e. to the Timeout error.
    * later polls: the same timeout / select! is polled again.
    The spawned task is run eagerly after every event (the harness yields to quiescence). *)
 From TR Require Import Lib.Base.
@@ -38,7 +39,7 @@ Inductive ist :=
 
 Inductive ev :=
 | Call (i : nat)
-| Poll (i : nat) (tb : bool)   (* tb: winner of select! when both branches are ready: true = sleep *)
+| Poll (i : nat)
 | Drop (i : nat)
 | Advance (d : Z)
 | Complete (i : nat) (o : outcome).
@@ -103,7 +104,7 @@ Definition poll_cancel (i : nat) (t : Z) (l : loc) (dl : Z) : loc * obs :=
     else (set_cs l (Active dl), pending)
   end.
 
-(* non-cancel mode: select! over the oneshot receiver and the sleep *)
+(* non-cancel mode: biased select! - the oneshot receiver first, then the sleep *)
 Definition rx_state (l : loc) : option (option outcome) :=
   match linner l with
   | IFinished o => Some (Some o)     (* the task sent the result *)
@@ -111,11 +112,10 @@ Definition rx_state (l : loc) : option (option outcome) :=
   | _ => None
   end.
 
-Definition poll_select (i : nat) (t : Z) (l : loc) (dl : Z) (tb : bool) : loc * obs :=
+Definition poll_select (i : nat) (t : Z) (l : loc) (dl : Z) : loc * obs :=
   match rx_state l with
   | Some res =>
-    if (dl <=? t) && tb then (set_cs l Done, timed_out)
-    else (set_cs l Done, match res with Some o => result i o | None => timed_out end)
+    (set_cs l Done, match res with Some o => result i o | None => timed_out end)
   | None =>
     if dl <=? t then (set_cs l Done, timed_out)
     else (set_cs l (Active dl), pending)
@@ -131,7 +131,7 @@ Definition task_run (l : loc) : loc :=
   | _, _ => l
   end.
 
-Definition lpoll (c : cfg) (i : nat) (t : Z) (l0 : loc) (tb : bool) : loc * obs :=
+Definition lpoll (c : cfg) (i : nat) (t : Z) (l0 : loc) : loc * obs :=
   let l := set_woken l0 false in
   match lcs l with
   | Created =>
@@ -139,10 +139,10 @@ Definition lpoll (c : cfg) (i : nat) (t : Z) (l0 : loc) (tb : bool) : loc * obs 
     let l1 := mkLoc (lcs l) (linner l) (lgate l) (lwoken l) (Some t) in
     if cancel c then poll_cancel i t (set_inner l1 IRunning) dl
     else
-      let '(l2, o) := poll_select i t l1 dl tb in
+      let '(l2, o) := poll_select i t l1 dl in
       (task_run (set_inner l2 IRunning), o)
   | Active dl =>
-    if cancel c then poll_cancel i t l dl else poll_select i t l dl tb
+    if cancel c then poll_cancel i t l dl else poll_select i t l dl
   | Done | Dropped => (l, {| r := 9; val := -1 |})
   end.
 
@@ -180,7 +180,7 @@ Definition on (s : st) (i : nat) (l : loc) : st := mkSt (now s) (upd (callers s)
 Definition step (c : cfg) (s : st) (e : ev) : st * obs :=
   match e with
   | Call _ => (s, no_obs)
-  | Poll i tb => let '(l, o) := lpoll c i (now s) (callers s i) tb in (on s i l, o)
+  | Poll i => let '(l, o) := lpoll c i (now s) (callers s i) in (on s i l, o)
   | Drop i => (on s i (ldrop c (callers s i)), no_obs)
   | Advance d =>
     let t1 := now s + Z.max 0 d in
@@ -195,7 +195,7 @@ Definition run (c : cfg) (evs : list ev) : st := fold_left (step_st c) evs init.
    script = [cancel; dyn; n; T; t_0 .. t_(n-1); (op a b)* ]
      cancel: 1 = cancel_running_future(true); dyn: 0 = timeout_duration(T ms),
      1 = timeout_fn(request i -> t_i ms); callers 0..n-1
-     op 1 = Poll a (b: tie-break bit, see Poll), 2 = Drop a, 3 = Advance a ms,
+     op 1 = Poll a, 2 = Drop a, 3 = Advance a ms,
         4 = Complete a b (b: 0 ok 1 err 2 panic), 5 = Call a; events on callers >= n are skipped
    trace = per event [r; val; wake mask; inner-call states (base 4, digit j = caller j:
            0 none 1 running 2 finished 3 dropped)] *)
@@ -208,7 +208,7 @@ Definition ev_of (n : nat) (t : Z * Z * Z) : option ev :=
   let okc := (0 <=? a) && (a <? Z.of_nat n) in
   if op =? 3 then Some (Advance a) else
   if negb okc then None else
-  if op =? 1 then Some (Poll i (z2b b)) else
+  if op =? 1 then Some (Poll i) else
   if op =? 2 then Some (Drop i) else
   if op =? 4 then Some (Complete i (outcome_of b)) else
   if op =? 5 then Some (Call i) else None.
